@@ -130,6 +130,21 @@ def make(shape: Dict[str, Any], tier: str = 'thorough') -> Any:
             ctx.check(len(packed) >= 1, 'success without an address')
             for p in packed:
                 ctx.check(p in (VOCAB['A1'].rd['address'], VOCAB['A2'].rd['address'], VOCAB['AAAA1'].rd['address']), 'address not from an address record of the host')
+            # every address must come from a record that was unexpired at an instant at which the lookup can have read it
+            # (its start for cached records, the arrival of a datagram otherwise); sound over-approximation of the read instants
+            reads = [t0] + [at for at in arrival_times if at <= finished_at]
+            for p in packed:
+                ok: Any = False
+                for k, e in known.items():
+                    base = k.split('@')[0]
+                    if base in ('A1', 'A2', 'AAAA1') and VOCAB[base].rd['address'] == p:
+                        for r in reads:
+                            ok = ok or (r >= e[0] and unexpired(e, r))
+                ctx.check(ok, 'an address was taken from a record that had expired whenever the lookup could have read it')
+            if sufficed_at_start:
+                # answered from the cache alone: all unexpired cached addresses of the host, and nothing else
+                want_addrs = sorted({VOCAB[k].rd['address'] for k in cached if k in ('A1', 'A2', 'AAAA1') and unexpired(known[k], t0)})
+                ctx.check(sorted(set(packed)) == want_addrs, 'lookup answered from the cache does not hold exactly the unexpired cached addresses of the host')
         # ---- transmissions
         sends = [s for s in env.sent_log(zc)]
         for s in sends:
@@ -190,6 +205,8 @@ QUICK = {
     'forced-qu': sh(question_type=DNSQuestionType.QU),
     'address-cached-again-arrives': sh(cached=['S1', 'A1'], arrivals=[['A1']]),
     'server-given-address-cached': sh(cached=['A1'], server_given=True),
+    'server-given-two-families-cached': sh(cached=['A1', 'AAAA1'], server_given=True),
+    'srv-cached-aaaa-arrives': sh(cached=['S1'], arrivals=[['AAAA1']]),
 }
 THOROUGH = {
     'srv-then-address': sh(arrivals=[['S1', 'T1'], ['A1']]),
